@@ -98,7 +98,7 @@ def check(run: Run, ctx) -> None:
     cases = []
     for i in range(ctx.budget(24, 240)):
         r = rng(f"C02:{i}")
-        cases.append({"id": f"c02-{i}", "doc": gs.gen_spec(r, gs.Opts(mainstream=True, max_ops=1, max_schemas=6, unions=(i % 4 == 0)))})
+        cases.append({"id": f"c02-{i}", "doc": gs.gen_spec(r, gs.Opts(mainstream=True, max_ops=1, max_schemas=6, unions=(i % 4 == 0), colliding_props=(i % 3 == 0), allof_variants=(i % 2 == 0)))})
     results = e2e.run_cases("vf.props.C02:case_fn", cases)
     for case, res in zip(cases, results):
         if "infra_error" in res:
